@@ -239,6 +239,35 @@ def call_sites(ctx, sel):
         if not ok(s, av):
             res.oracle_failures.append(dict(op=op, input=dict(where=where, string=s, spelling=sp, units=text), impl_output=str(av),
                                             oracle_expectation=f'{where}: {what}, for the string {s!r} spelled {sp!r}'))
+    # the empty string is a string too: its quoted spellings "" and '' denote what the empty assignment denotes, so a unit that
+    # spells the value of a single-valued key that way generates exactly what the unit with `Key=` generates (alone, and after
+    # an earlier non-empty assignment of the key)
+    e_ops, e_meta = [], []
+    for ty in G.TYPES:
+        for key, kind, spec in c02.key_specs(ty):
+            if kind != 'str':
+                continue
+            for sp_e in ('""', "''"):
+                for before in ('', f'{key}=earlier\n'):
+                    pair = []
+                    for v in (sp_e, ''):
+                        text = '[' + G.SEC[ty] + ']\n' + '\n'.join(G.BASE[ty]) + '\n' + before + f'{key}={v}\n'
+                        pair.append(f'convert\t0\t0\t{hx("/q/e." + ty)}\t{hx(text)}')
+                    e_ops += pair
+                    e_meta.append((ty, key, sp_e, before))
+    e_out = ctx.impl(e_ops)
+    for i, (ty, key, sp_e, before) in enumerate(e_meta):
+        res.oracle_evals += 1
+        a1, a2 = e_out[2 * i], e_out[2 * i + 1]
+        def execs(o):
+            r = canon.parse_convert(o)
+            if r and r[-1][0] == 'svc':
+                return [(k, canon.canon_exec(v)) for k, v in r[-1][2].get('Service', []) if k.startswith('Exec')]
+            return [x[:2] for x in r]
+        if execs(a1) != execs(a2):
+            res.oracle_failures.append(dict(op=e_ops[2 * i], input=dict(where=f'{key}= of a .{ty}', string='', spelling=sp_e, earlier_assignment=before),
+                                            impl_output=dict(quoted_empty=core.dec_line(a1)[:600], empty_assignment=core.dec_line(a2)[:600]),
+                                            oracle_expectation=f'{key}={sp_e} (a spelling of the empty string) generates what {key}= generates'))
     res.notes.append(f'call sites: {len(metas)} conversions — every string key of every type in its own command, and the naming keys ImageTag/VolumeName/NetworkName/ContainerName in the command of a referring unit')
 
 
